@@ -69,6 +69,8 @@ SvcChoices ==
   CASE Scope = "shapes"  -> {<<>>} \cup Singles(SvcTable) \cup Pairs(SvcTable)
     [] Scope = "options" -> Singles({[camel |-> "Library", snake |-> "library"]})
     [] OTHER             -> Singles({[camel |-> "Library", snake |-> "library"]})
+                            \cup {<<[camel |-> "Library", snake |-> "library"], [camel |-> "BookAdmin", snake |-> "book_admin"]>>,
+                                  <<[camel |-> "BookAdmin", snake |-> "book_admin"], [camel |-> "Library", snake |-> "library"]>>}
 KindChoices ==
   CASE Scope = "shapes"  -> Singles(MethodKinds) \cup {<<"unary", k>> : k \in MethodKinds \ {"unary"}}
     [] Scope = "options" -> {<<"unary", "paged">>}
@@ -87,7 +89,7 @@ OptChoices ==
 \* generate_omitted_as_internal listing only the first RPC of the first service; "reserved" adds a request
 \* field named by a reserved word (class)
 ExtraChoices ==
-  CASE Scope = "shapes"  -> {"none", "kw"}
+  CASE Scope = "shapes"  -> {"none", "kw", "internal"}
     [] Scope = "options" -> {"none"}
     [] OTHER             -> {"none", "kw", "internal", "reserved"}
 Requests == [ pkg : PkgChoices, files : FilesChoices, svcs : SvcChoices, kinds : KindChoices,
